@@ -56,6 +56,11 @@ NEG_SHAPES = [
 ]
 
 
+# ptgpp -M index-array emits C that does not compile when a derived (non-range) parameter is followed by another
+# parameter (internal_init refers to an undeclared __<name>_min): such shapes are only built with the hash back-end.
+HT_ONLY = {'mid'}
+
+
 def shape_prog(shape, succ, tag='sp', variants=None, prio=None, props=None):
     """One class S over the shape (every instance is a start-up task); succ: also a class Z of the same shape fed by S."""
     nm, params, locs = shape
@@ -65,7 +70,10 @@ def shape_prog(shape, succ, tag='sp', variants=None, prio=None, props=None):
     cl = [S]
     if succ:
         cl.append(Cls('Z(%s)' % params, locs, 'A(0)', [Flow('READ T', ['T S(%s)' % args])], props=props))
-    return Prog('%s_%s%s' % (tag, nm, 'z' if succ else ''), {'A': '1'}, ['N'], variants or NV(1, 2, 3), cl, tags=['shape', nm])
+    p = Prog('%s_%s%s' % (tag, nm, 'z' if succ else ''), {'A': '1'}, ['N'], variants or NV(1, 2, 3), cl, tags=['shape', nm])
+    if nm in HT_ONLY:
+        p.backends = ('ht',)
+    return p
 
 
 # ----------------------------------------------------------------------------- start-up condition grid
@@ -146,7 +154,7 @@ def dep_progs(props=None, sfx=''):
         Cls('U(k)', ['k = 0 .. N-1'], 'A(k)', [Flow('RW X', ['(k % 2) == 0 ? A(k) : X V(k-1)'], ['k < N-1 ? X V(k) : A(k - (k % 2))']),
                                                Flow('READ Y', ['B(k)'])], **k),
         Cls('V(k)', ['k = 0 .. N-2'], 'A(k)', [Flow('RW X', ['X U(k)'], ['(k % 2) == 0 ? X U(k+1) : A(k-1)']),
-                                               Flow('READ Y', ['(k % 2) == 1 ? B(k) : B(0)'])], **k)], tags=['inin']))
+                                               Flow('READ Y', ['(k % 2) == 1 ? B(k)', '(k % 2) == 0 ? B(0)'])], **k)], tags=['inin']))
     # WRITE flow creates new data, consumer reads it and forwards the value through a RW chain on the collection
     P.append(Prog('wnew' + sfx, {'A': 'N'}, ['N'], NV(1, 2, 3), [
         Cls('G(k)', ['k = 0 .. N-1'], 'A(k)', [Flow('WRITE W', [], ['W H(k)']), Flow('READ X', ['A(k)'])], **k),
@@ -163,9 +171,9 @@ def dep_progs(props=None, sfx=''):
             Flow('RW X', ['A(i*N+j)'], ['A(i*N+j)', 'i < N-1 ? U Wv(i+1, j)', 'j < N-1 ? L Wv(i, j+1)']),
             Flow('READ U', ['i == 0 ? A(i*N+j) : X Wv(i-1, j)']),
             Flow('READ L', ['j == 0 ? NULL : X Wv(i, j-1)'])], **k)], tags=['wave', 'null']))
-    # NULL forwarded through a chain, CTL only class in between
+    # NULL input on the first instance of a chain that otherwise passes new data along; CTL-only class in between
     P.append(Prog('nullfw' + sfx, {'A': 'N'}, ['N'], NV(1, 2, 3), [
-        Cls('Q(k)', ['k = 0 .. N-1'], 'A(k)', [Flow('RW X', ['k == 0 ? NULL : X Q(k-1)'], ['k < N-1 ? X Q(k+1)']), Flow('CTL C', [], ['C E(k)'])], **k),
+        Cls('Q(k)', ['k = 0 .. N-1'], 'A(k)', [Flow('READ X', ['k == 0 ? NULL : W Q(k-1)']), Flow('WRITE W', [], ['k < N-1 ? X Q(k+1)']), Flow('CTL C', [], ['C E(k)'])], **k),
         Cls('E(k)', ['k = 0 .. N-1'], 'A(k)', [Flow('CTL C', ['C Q(k)']), Flow('RW Y', ['A(k)'], ['A(k)'])], **k)], tags=['null', 'ctl']))
     # gather of a range into every instance of a class (all-to-all CTL), then a second phase writes
     P.append(Prog('a2a' + sfx, {'A': 'N'}, ['N'], NV(1, 2, 3), [
@@ -198,9 +206,9 @@ def c01_family(tier):
     progs += dep_progs()
     progs, refused = valid(progs)
     if tier == 'quick':
-        want = ['sp_lin', 'sp_step2z', 'sp_tri2z', 'sp_triEz', 'sp_emptyz', 'sp_derpz', 'sp_lidxz', 'sp_nest3', 'sp_swapz', 'sp_inlz', 'sp_negz', 'sp_midz', 'pr_triz',
-                'su_tmtf_ctlo', 'su_ttmo_tmtn', 'su_bmtf_memo', 'su_btmo_ttmn', 'su_newf_tmto', 'su_nullf_ctlo', 'su_taskf_none',
-                'chain', 'fanout', 'nullfw', 'wnew']
+        want = ['sp_step2z', 'sp_tri2z', 'sp_triEz', 'sp_emptyz', 'sp_derpz', 'sp_lidxz', 'sp_nest3', 'sp_swapz', 'sp_inlz', 'sp_negz', 'sp_midz',
+                'su_tmtf_ctlo', 'su_ttmo_tmtn', 'su_btmo_ttmn', 'su_newf_tmto', 'su_nullf_ctlo',
+                'chain', 'fanout', 'wnew']
         progs = [p for p in progs if p.name in want]
         missing = set(want) - set(p.name for p in progs)
         assert not missing, missing
